@@ -139,8 +139,25 @@ def has_none(x):
     return False
 
 
+def representable(fmt, x):
+    """the format's representable subset as the property states it: naive times only for orjson and TOML"""
+    import datetime as _dt
+
+    if isinstance(x, _dt.time) and x.tzinfo is not None and fmt in ("orjson", "toml"):
+        return False
+    if isinstance(x, dict):
+        return all(representable(fmt, v) for v in x.values())
+    if isinstance(x, (list, tuple, set, frozenset)):
+        return all(representable(fmt, v) for v in x)
+    if dataclasses.is_dataclass(x) and not isinstance(x, type):
+        return all(representable(fmt, getattr(x, f.name)) for f in dataclasses.fields(x))
+    return True
+
+
 def real_check(S, v):
     """the same obligation through the real format library (stub validation; AssertionError = stub or library disagreement)"""
+    if not representable(S.fmt, v):
+        return
     data = S.real_enc(v)
     back = S.real_dec(data)
     if not (deep_eq(back, v) and same_classes(back, v)):
